@@ -113,3 +113,38 @@ theorem maskFilter_noGaps_row (isGap : UInt8 → Bool) :
       · exact ih c hc
 
 end EaselModel.Msa
+
+namespace EaselModel.Msa
+
+theorem maskFilter_map_self {α : Type} (p : α → Bool) : ∀ (r : List α), maskFilter (r.map p) r = r.filter p
+  | [] => rfl
+  | x :: r => by
+    simp only [List.map_cons, maskFilter, List.filter_cons, maskFilter_map_self p r]
+
+/-- the sequence `esl_sq_FetchFromMSA` extracts is the ungapped row -/
+theorem fetch_seq_eq (m : Msa) (which : Nat) (wf : m.WF) (hw : which < m.nseq) :
+    (fetchFromMSA m which).map (·.seq) = some (dealign (fetchIsGap m) (m.rows.getD which [])) := by
+  have hlen : which < m.rows.length := by rw [wf.rows_len]; exact hw
+  have hrow : m.rows.getD which [] ∈ m.rows := by
+    rw [List.getD_eq_getElem?_getD, List.getElem?_eq_getElem hlen]; exact List.getElem_mem hlen
+  have htake : (m.rows.getD which []).take m.alen = m.rows.getD which [] :=
+    List.take_of_length_le (by rw [(wf.rows_ok _ hrow).1]; exact Nat.le_refl _)
+  simp only [fetchFromMSA, if_neg (by omega : ¬ which ≥ m.nseq), Option.map_some, htake, dealign]
+  rw [maskFilter_map_self]
+
+/-- residues intact, as observed through `esl_sq_FetchFromMSA`: removing columns that are gaps in a row does not
+    change the sequence fetched for that row -/
+theorem fetch_after_gap_removal' (m : Msa) (mask : List Bool) (which : Nat) (wf : m.WF) (hm : mask.length = m.alen)
+    (hw : which < m.nseq) (hg : removesOnlyGaps (fetchIsGap m) mask (m.rows.getD which [])) :
+    (fetchFromMSA (m.colFilter mask) which).map (·.seq) = (fetchFromMSA m which).map (·.seq) := by
+  have hlen : which < m.rows.length := by rw [wf.rows_len]; exact hw
+  have hrow : m.rows.getD which [] ∈ m.rows := by
+    rw [List.getD_eq_getElem?_getD, List.getElem?_eq_getElem hlen]; exact List.getElem_mem hlen
+  rw [fetch_seq_eq m which wf hw, fetch_seq_eq (m.colFilter mask) which (colFilter_wf m mask wf hm) hw]
+  have hget : (m.colFilter mask).rows.getD which [] = maskFilter mask (m.rows.getD which []) := by
+    simp only [Msa.colFilter, List.getD_eq_getElem?_getD, List.getElem?_map, List.getElem?_eq_getElem hlen,
+               Option.map_some, Option.getD_some]
+  have hgap : fetchIsGap (m.colFilter mask) = fetchIsGap m := rfl
+  rw [hget, hgap, dealign_maskFilter _ mask _ (by rw [hm, (wf.rows_ok _ hrow).1]) hg]
+
+end EaselModel.Msa
